@@ -165,6 +165,20 @@ static void request(world &w, browser &b, rng &r)
 		if (keys != want) { w.trace.push_back(req + "load"); viol(w, "session:key-set-differs-from-previous-request", "browser " + std::to_string(b.id)); return; }
 		for (auto const &d : m.data) {
 			std::string v = si.get(d.first);
+			if (d.first.compare(0, 2, "t_") == 0) {
+				// values stored through the typed convenience calls set<T>() come back through get<T>()
+				std::string back;
+				try {
+					if (d.first == "t_int") back = std::to_string(si.get<int>(d.first));
+					else if (d.first == "t_char") back = std::string(1, si.get<char>(d.first));
+					else if (d.first == "t_uchar") back = std::string(1, (char)si.get<unsigned char>(d.first));
+					else back = std::to_string(si.get<long long>(d.first));
+				} catch (std::exception const &e) { w.trace.push_back(req + "load"); viol(w, "session:typed-value-not-readable-as-it-was-stored", d.first + " stored as '" + v + "': " + e.what()); return; }
+				if (back != d.second.value || v != d.second.value) { w.trace.push_back(req + "load"); viol(w, "session:value-differs-from-previous-request", d.first); return; }
+				O().count("typed_values_read_back");
+				if (si.is_exposed(d.first) != d.second.exposed) { w.trace.push_back(req + "load"); viol(w, "session:exposed-flag-differs", d.first); return; }
+				continue;
+			}
 			if (v.compare(0, 3, "b" + std::to_string(b.id) + ":") != 0) { viol(w, "session:value-of-another-browser", d.first + "=" + v.substr(0, 30)); return; }
 			if (v != d.second.value) { w.trace.push_back(req + "load"); viol(w, "session:value-differs-from-previous-request", d.first); return; }
 			if (si.is_exposed(d.first) != d.second.exposed) { w.trace.push_back(req + "load"); viol(w, "session:exposed-flag-differs", d.first); return; }
@@ -184,7 +198,18 @@ static void request(world &w, browser &b, rng &r)
 		static char const *kk[] = { "k1", "k2", "k3", "key with space", "k\xc3\xa9" };
 		std::string k = kk[r.below(5)];
 		int op = r.below(100);
-		if (op < 38) {
+		if (op < 38 && r.chance(1, 7)) {
+			std::string v;
+			switch (r.below(4)) {
+			case 0: { int x = (int)r.range(-100000, 100000); si.set<int>("t_int", x); k = "t_int"; v = std::to_string(x); break; }
+			case 1: { char c = (char)r.range('!', '~'); si.set<char>("t_char", c); k = "t_char"; v = std::string(1, c); break; }
+			case 2: { unsigned char c = (unsigned char)r.range('!', '~'); si.set<unsigned char>("t_uchar", c); k = "t_uchar"; v = std::string(1, (char)c); break; }
+			default: { long long x = (long long)r.next() >> (r.below(40) + 1); if (r.chance(1, 2)) x = -x; si.set<long long>("t_ll", x); k = "t_ll"; v = std::to_string(x); }
+			}
+			n.data[k].value = v; if (!n.data.count(k)) n.data[k].exposed = false; req += "set<T>(" + k + ");";
+			O().count("typed_values_set");
+		}
+		else if (op < 38) {
 			size_t len = r.chance(1, 6) ? r.range(150, 400) : r.below(20);
 			std::string v = "b" + std::to_string(b.id) + ":" + std::to_string(now % 100000) + ":" + std::string(len, (char)('a' + r.below(26)));
 			if (r.chance(1, 8)) v += std::string("\0;=\"%+ \r\n", 9);
